@@ -308,6 +308,10 @@ type Violation struct {
 	Repro    int            `json:"reproduced_of_5"`
 	Log      []string       `json:"log,omitempty"`
 	Nondet   bool           `json:"harness_nondeterminism,omitempty"`
+	// SecondRun: the execution passed when it ran first in its process and
+	// failed when the same execution ran again in the same process (the code
+	// under test kept package-level state from the first run)
+	SecondRun bool `json:"second_run_in_process,omitempty"`
 }
 
 // Stats is what a shard reports.
@@ -354,7 +358,9 @@ type explorer struct {
 	stop  bool
 	// lenient replay (see Ctx.lenient)
 	lenient bool
-	visited map[string]int // global-state key -> largest remaining budget it was expanded with
+	// set while reporting a failure of a repeated execution (see sample)
+	secondRun bool
+	visited   map[string]int // global-state key -> largest remaining budget it was expanded with
 }
 
 // Config is the parsed command line of a harness binary.
@@ -568,6 +574,19 @@ func (e *explorer) sample(c *Ctx) {
 		"scenario": e.sc.Name, "params": e.sc.Params, "choices": compact(c.choices), "history": c.history, "trace": lg,
 	})
 	e.st.SelfCheck++
+	if lc.obs != c.obs && len(lc.fails) > 0 {
+		// the same execution, repeated in the same process, fails: the code
+		// under test carried state over from the first run (a non-initial
+		// state of its package-level variables).  The failure is judged like
+		// any other -- it must reproduce 5/5 from here on.
+		for _, f := range lc.fails {
+			f.Msg = "when the same execution runs a second time in the same process (it passed the first time: the code under test keeps package-level state): " + f.Msg
+			e.secondRun = true
+			e.violation(lc, f)
+			e.secondRun = false
+		}
+		return
+	}
 	if lc.obs != c.obs {
 		fmt.Fprintf(os.Stderr, "MACHINERY: harness nondeterminism: same choices, different observations in %s choices=%v\n", e.sc.Name, c.choices)
 		os.Exit(3)
@@ -605,7 +624,7 @@ func (e *explorer) violation(c *Ctx, f Failure) {
 		lg = append(append([]string{}, lg[:100]...), lg[len(lg)-300:]...)
 	}
 	v := Violation{Property: st.Property, Scenario: e.sc.Name, Params: e.sc.Params, Choices: append([]int{}, c.choices...),
-		History: c.history, Failure: f, Repro: repro, Log: lg, Nondet: repro != 5}
+		History: c.history, Failure: f, Repro: repro, Log: lg, Nondet: repro != 5, SecondRun: e.secondRun}
 	st.Violations = append(st.Violations, v)
 }
 
@@ -913,6 +932,10 @@ func replayFile(cfg *Config, st *Stats, scs []Scenario) int {
 			continue
 		}
 		e := &explorer{sc: &scs[i], st: st, cfg: cfg, lenient: true}
+		if v.SecondRun {
+			e.runOnce(v.Choices, false, v.History)
+			fmt.Println("REPLAY: (first run of the execution in this process done; the recorded failure is that of the second run)")
+		}
 		c := e.runOnce(v.Choices, true, v.History)
 		for _, l := range c.log {
 			fmt.Println(l)
